@@ -99,18 +99,4 @@ theorem countFreeV_spec {ft : FatType} {f : Array Nat} {total : Nat} (ht : Table
   rw [view_spec ht (by omega)]
   exact specClassify_free_iff _ _
 
-/-- F10 at the FAT layer: once the iterator's error latch is set, `next()` no longer advances and the `free` loop
-    spins for as long as the writes succeed — whatever the fuel, the outcome is `hang` -/
-theorem freeLoop_latched_hangs (ft : FatType) : ∀ (k : Nat) (f : Array Nat) (n cnt : Nat), InRange ft f n →
-    (ft = .fat32 → ¬ special32 n) → (freeLoop ft k f ⟨some n, true⟩ cnt).out = .error .hang := by
-  intro k
-  induction k with
-  | zero => intro f n cnt _ _; rfl
-  | succ k ih =>
-    intro f n cnt hin hs
-    obtain ⟨f1, h1⟩ := set_ok_of_inRange (v := .free) hin (fun hft _ => hs hft)
-    have hin1 : InRange ft f1 n := by unfold InRange at *; rw [set_size h1]; exact hin
-    have := ih f1 n (cnt + 1) hin1 hs
-    simpa [freeLoop, iterPanics, iterAdvance, h1] using this
-
 end FatVerif.Fat
